@@ -203,6 +203,119 @@ func verifReinitState(t *testing.T, r *vfh.Rand, out *vfh.Out) {
 	}
 }
 
+// runLinkFlap: a flapping link. The link drops at tf; while the interface is being re-established
+// the link drops again — the notification is queued on the task's channel during dial number
+// 2 … k+1, i.e. before the new incarnation's watcher has started.  Every link-state change must tear
+// the task down (C10): k+2 connections are opened, the last one keeps serving, the others are not
+// used any more.  monitor = the same for a monitoring task.
+//
+//	flap monitor tf k | dials oldUse served
+func runLinkFlap(t *testing.T, out *vfh.Out, monitor bool, tf time.Duration, k int) {
+	out.Pending(fmt.Sprintf("runLinkFlap monitor=%v linkDownAt=%v queuedDuringDials=%d", monitor, tf, k))
+	synctest.Test(t, func(t *testing.T) {
+		st := &vfState{forwarding: true}
+		cfg := vfAdvConfig(200*time.Second, 600*time.Second, false, 1800*time.Second)
+		mode := system.Advertise
+		if monitor {
+			cfg.Advertise, cfg.Monitor = false, true
+			mode = system.Monitor
+		}
+		mm := NewMetrics(metricslite.NewMemory(), "v", time.Time{}, st, []config.Interface{cfg})
+		cctx := NewContext(nil, mm, st)
+		watchC := make(chan netstate.Change, 8)
+		var mu sync.Mutex
+		var conns []*vfConn
+		start := time.Now()
+		d := system.NewDialer("vf0", st, mode, nil)
+		d.DialFunc = func() (*system.DialContext, error) {
+			c := newVfConn()
+			c.t0 = start
+			mu.Lock()
+			n := len(conns)
+			conns = append(conns, c)
+			mu.Unlock()
+			if monitor && n >= 1 && n <= k {
+				// a monitoring task has no plugins to prepare: the link drops again at the very end
+				// of the dial (the socket is open, the readiness test is behind us)
+				watchC <- netstate.LinkDown
+			}
+			return &system.DialContext{Conn: c,
+				Interface: &net.Interface{Index: 1, Name: "vf0", HardwareAddr: net.HardwareAddr{2, 0, 0, 0, 0, 1}},
+				IP:        netip.MustParseAddr("fe80::1")}, nil
+		}
+		// for an advertising task the link drops again AFTER the dial has returned and before the new
+		// incarnation watches the channel: while Run prepares the plugins for the new connection
+		nPrep := 0
+		cfg.Plugins = append(cfg.Plugins, &hookPlugin{prepare: func() {
+			nPrep++
+			if nPrep >= 2 && nPrep <= k+1 {
+				watchC <- netstate.LinkDown
+			}
+		}})
+		var run func(context.Context) error
+		if monitor {
+			run = NewMonitor(cctx, "vf0", d, watchC, false).Run
+		} else {
+			run = NewAdvertiser(cctx, cfg, d, watchC, func() bool { return false }).Run
+		}
+		ctx, cancel := context.WithCancel(context.Background())
+		done := make(chan error, 1)
+		go func() { done <- run(ctx) }()
+		synctest.Wait()
+		time.Sleep(tf)
+		watchC <- netstate.LinkDown
+		synctest.Wait()
+		time.Sleep(time.Duration(k+2) * 5 * time.Second)
+		synctest.Wait()
+		mu.Lock()
+		cs := append([]*vfConn(nil), conns...)
+		mu.Unlock()
+		// the last connection serves (a message handed to it is read); the earlier ones are left
+		// alone (a message handed to them finds no reader)
+		oldUse, served := 0, false
+		msg := vfRead{m: advMessage(advEvent{kind: 0, host: 1}), hop: 255, host: vfHosts[1].WithZone("vf0")}
+		for i, c := range cs {
+			if i == len(cs)-1 {
+				served = c.deliver(msg)
+			} else if c.deliver(msg) {
+				oldUse++
+			}
+		}
+		synctest.Wait()
+		cancel()
+		select {
+		case <-done:
+		case <-time.After(10 * time.Minute):
+		}
+		out.Line(new(vfh.Toks).S("flap").B(monitor).I(int64(tf)).N(k).String(),
+			new(vfh.Toks).N(len(cs)).N(oldUse).B(served).String())
+		out.Flush()
+	})
+}
+
+// hookPlugin adds nothing to the RA; its Prepare runs a hook (Prepare is called by Advertiser.Run
+// for every established connection, right before the incarnation's goroutines are started).
+type hookPlugin struct{ prepare func() }
+
+func (*hookPlugin) Name() string   { return "verif-hook" }
+func (*hookPlugin) String() string { return "verif-hook" }
+func (p *hookPlugin) Prepare(*net.Interface) error {
+	p.prepare()
+	return nil
+}
+func (*hookPlugin) Apply(*ndp.RouterAdvertisement) error { return nil }
+
+func verifLinkFlap(t *testing.T, r *vfh.Rand, out *vfh.Out) {
+	for _, mon := range []bool{false, true} {
+		for k := 0; k <= 3; k++ {
+			runLinkFlap(t, out, mon, 5*time.Second+1, k)
+		}
+	}
+	for i := vfh.N(8, 200); i > 0; i-- {
+		runLinkFlap(t, out, r.Bool(), time.Duration(r.Range(1, int64(60*time.Second)))|1, r.Intn(5))
+	}
+}
+
 func verifReinit(t *testing.T, r *vfh.Rand, out *vfh.Out) {
 	for _, tf := range []time.Duration{1, 500 * time.Millisecond, 2900 * time.Millisecond, 3*time.Second + 1, 3100 * time.Millisecond, 10 * time.Second, 250 * time.Second} {
 		runReinit(t, out, tf|1, 5*time.Second)
